@@ -150,6 +150,10 @@ def forked(fn, timeout=600):
     # child for ever (CPython: dump_traceback_later after fork deadlocks):
     # disarm, fork, re-arm on both sides
     faulthandler.cancel_dump_traceback_later()
+    # keep the collector of the child away from what it inherits (every
+    # object it visits is a copied page)
+    import gc
+    gc.freeze()
     pid = os.fork()
     if pid == 0:
         code = 0
@@ -188,6 +192,29 @@ def forked(fn, timeout=600):
     return val
 
 
+def _run_with_prelude(mod, case, prelude):
+    for c in prelude:
+        try:
+            mod.run_case(c)
+        except BaseException:
+            pass
+    return mod.run_case(case)
+
+
+def run_case(mod, case, prelude=()):
+    """Execute one case the way a batch does.  Modules that set CHUNK run
+    their cases in forked children of the worker, CHUNK consecutive run
+    indices per child, each child starting from the interpreter state right
+    after warm-up; a case is then a pure function of (code, the cases run
+    before it in its chunk, the case).  Here the same is done for one case:
+    a forked child runs the prelude (the earlier cases of the chunk, when the
+    violation needs them) and then the case."""
+    if getattr(mod, 'CHUNK', 0):
+        return forked(lambda: _run_with_prelude(mod, case, prelude),
+                      mod.CASE_TIMEOUT)
+    return mod.run_case(case)
+
+
 # ------------------------------------------------------------------ worker
 
 class Agg:
@@ -224,19 +251,46 @@ class Agg:
             'digests': self.digests, 'truncated': self.truncated,
             'extra': self.extra}
 
+    def merge(self, r, cap=SET_CAP):
+        """add what another Agg (as a dict) saw"""
+        self.evaluations += r.get('evaluations', 0)
+        self.cases += r.get('cases', 0)
+        self.steps += r.get('steps', 0)
+        self.add_counts(self.faults, r.get('faults', {}))
+        self.add_counts(self.probes, r.get('probes', {}))
+        self.nontrivial |= r.get('nontrivial', set())
+        self.distinct |= r.get('distinct', set())
+        for k, v in r.get('extra', {}).items():
+            if isinstance(v, (set, frozenset)):
+                cur = self.extra.setdefault(k, set())
+                if len(cur) < cap:
+                    cur.update(v)
+            else:
+                self.extra[k] = self.extra.get(k, 0) + v
+        if len(self.samples) < 3:
+            self.samples.extend(r.get('samples', [])[:1])
+        self.violations.extend(r.get('violations', []))
+        self.errors.extend(r.get('errors', []))
+        for key, (cnt, rec) in r.get('known_hits', {}).items():
+            k = self.known_hits.setdefault(key, [0, rec])
+            k[0] += cnt
+        self.truncated = self.truncated or r.get('truncated', False)
+        self.digests.extend(r.get('digests', []))
 
-def worker(modname, base, lo, hi, tier, deadline):
+
+def run_range(mod, base, lo, hi, tier, deadline, prelude=False):
+    """generate and execute the runs lo..hi-1 in this process, in order"""
     import faulthandler
-    faulthandler.enable()
-    mod = sys.modules[modname]
     agg = Agg()
     known = load_known()
+    earlier = []
     for i in range(lo, hi):
         if time.time() > deadline:
             agg.truncated = True
             break
         seed = run_seed(base, mod.PROP, i)
         faulthandler.dump_traceback_later(mod.CASE_TIMEOUT, exit=True)
+        case = None
         try:
             case = mod.gen_case(seed, tier)
             res = mod.run_case(case)
@@ -244,6 +298,8 @@ def worker(modname, base, lo, hi, tier, deadline):
             agg.errors.append({'seed': seed, 'index': i,
                                'trace': traceback.format_exc()[-3000:]})
             faulthandler.cancel_dump_traceback_later()
+            if case is not None and prelude:
+                earlier.append(case)
             if len(agg.errors) > 3:
                 break
             continue
@@ -275,15 +331,51 @@ def worker(modname, base, lo, hi, tier, deadline):
                 k = agg.known_hits.setdefault(v['key'], [0, rec])
                 k[0] += 1
             elif len(agg.violations) < 6:
+                if prelude:
+                    rec['prelude'] = list(earlier)
                 agg.violations.append(rec)
+        if prelude:
+            earlier.append(case)
+    return agg
+
+
+def worker(modname, base, lo, hi, tier, deadline):
+    import faulthandler
+    faulthandler.enable()
+    mod = sys.modules[modname]
+    chunk = getattr(mod, 'CHUNK', 0)
+    if not chunk:
+        return run_range(mod, base, lo, hi, tier, deadline).as_dict()
+    agg = Agg()
+    i = lo
+    while i < hi:
+        if time.time() > deadline:
+            agg.truncated = True
+            break
+        j = min(hi, i + chunk)
+        try:
+            d = forked(lambda: run_range(mod, base, i, j, tier, deadline,
+                                         prelude=True).as_dict(),
+                       min(1800, mod.CASE_TIMEOUT * (j - i)))
+            agg.merge(d)
+            if len(agg.violations) > 6:
+                del agg.violations[6:]
+        except ChildFailed as e:
+            agg.errors.append({'seed': None, 'index': i,
+                               'trace': 'chunk %d-%d: %s' % (i, j, e)})
+        if len(agg.errors) > 3:
+            break
+        i = j
     return agg.as_dict()
 
 
 # ---------------------------------------------------------------- minimise
 
-def minimise(mod, case, violation, budget_s=40.0, log=None):
-    """Greedy delta-debugging over mod.shrink(case) while the same rule of
-    the same property keeps failing."""
+def minimise(mod, case, violation, budget_s=40.0, log=None, prelude=()):
+    """Greedy delta-debugging over the prelude (the earlier cases of the
+    chunk, when the violation needs them) and over mod.shrink(case), while
+    the same rule of the same property keeps failing.
+    -> (case, violation, trials, prelude)"""
     rule = violation['rule']
     key0 = violation.get('key')
 
@@ -292,15 +384,41 @@ def minimise(mod, case, violation, budget_s=40.0, log=None):
         # wander from an unlisted violation to a listed (known) one
         same = [v for v in vs if v['rule'] == rule and v.get('key') == key0]
         return same
+
+    def attempt(cand, pre):
+        try:
+            return pick(run_case(mod, cand, pre).get('violations', ()))
+        except BaseException:
+            return []
     t0 = time.time()
     tried = 0
+    prelude = list(prelude)
+    if prelude:
+        # most violations need nothing from the cases before them
+        tried += 1
+        same = attempt(case, [])
+        if same:
+            prelude, violation = [], same[0]
+        else:
+            n = 2
+            while len(prelude) >= 1 and time.time() - t0 < budget_s / 2:
+                size = max(1, len(prelude) // n)
+                for k in range(0, len(prelude), size):
+                    cand = prelude[:k] + prelude[k + size:]
+                    tried += 1
+                    same = attempt(case, cand)
+                    if same:
+                        prelude, violation = cand, same[0]
+                        n = max(n - 1, 2)
+                        break
+                else:
+                    if size == 1:
+                        break
+                    n = min(len(prelude), n * 2)
     if hasattr(mod, 'pin'):
         cand = mod.pin(case, violation)
         if cand is not None:
-            try:
-                same = pick(mod.run_case(cand).get('violations', ()))
-            except BaseException:
-                same = []
+            same = attempt(cand, prelude)
             if same:
                 case, violation = cand, same[0]
     changed = True
@@ -310,25 +428,22 @@ def minimise(mod, case, violation, budget_s=40.0, log=None):
             if time.time() - t0 > budget_s:
                 break
             tried += 1
-            try:
-                res = mod.run_case(cand)
-            except BaseException:
-                continue
-            same = pick(res.get('violations', ()))
+            same = attempt(cand, prelude)
             if same:
                 case, violation = cand, same[0]
                 changed = True
                 break
-    return case, violation, tried
+    return case, violation, tried, prelude
 
 
 # ------------------------------------------------------------------ replay
 
-def write_replay(mod, seed, case, violation, note=''):
+def write_replay(mod, seed, case, violation, note='', prelude=()):
     os.makedirs(REPLAYS, exist_ok=True)
     path = os.path.join(REPLAYS, '%s-%d.json' % (mod.PROP, seed))
     with open(path, 'w', encoding='utf-8') as f:
         json.dump({'property': mod.PROP, 'seed': seed, 'case': case,
+                   'prelude': list(prelude),
                    'violation': violation, 'repo_head': repo_head(),
                    'note': note,
                    'replay_cmd': './check replay %s' % path},
@@ -339,7 +454,7 @@ def write_replay(mod, seed, case, violation, note=''):
 def replay(path, modules):
     d = json.load(open(path, encoding='utf-8'))
     mod = modules[d['property']]
-    res = mod.run_case(d['case'])
+    res = run_case(mod, d['case'], d.get('prelude') or ())
     want = d['violation']['rule']
     got = [v for v in res.get('violations', ()) if v['rule'] == want]
     if got:
@@ -377,6 +492,10 @@ def run_check(mod, tier):
     deadline = t0 + wall_cap
     nblocks = max(1, min(n_runs, WORKERS * 6))
     step = (n_runs + nblocks - 1) // nblocks
+    chunk = getattr(mod, 'CHUNK', 0)
+    if chunk:
+        # chunks are [k*CHUNK, (k+1)*CHUNK) whatever the number of workers
+        step = ((step + chunk - 1) // chunk) * chunk
     blocks = [(lo, min(lo + step, n_runs)) for lo in range(0, n_runs, step)]
     results = []
     ctx = multiprocessing.get_context('fork')
@@ -447,16 +566,23 @@ def run_check(mod, tier):
             if rk in seen_rules or len(reported) >= 3:
                 continue
             seen_rules.add(rk)
-            case, viol, tried = minimise(mod, v['case'], v['violation'])
+            case, viol, tried, pre = minimise(
+                mod, v['case'], v['violation'],
+                prelude=v.get('prelude') or ())
             path = write_replay(mod, v['seed'], case, viol,
-                                note='minimised with %d trials' % tried)
+                                note='minimised with %d trials' % tried,
+                                prelude=pre)
             ok, out = replay_in_fresh_process(path)
             note = 'minimised, replays in a fresh process'
+            if pre:
+                note += (' together with %d earlier case(s) of its chunk '
+                         '(state kept by the process)' % len(pre))
             if not ok:
                 path = write_replay(mod, v['seed'], v['case'],
                                     v['violation'],
                                     note='minimisation unstable; '
-                                         'unminimised case written')
+                                         'unminimised case written',
+                                    prelude=v.get('prelude') or ())
                 ok2, out = replay_in_fresh_process(path)
                 note = ('minimisation unstable; unminimised case %s'
                         % ('replays' if ok2 else 'DOES NOT REPLAY'))
